@@ -405,4 +405,54 @@ example : SeqWrap.runOps (SeqWrap.ofString "ACGGTAAC".toList true) [.slice (some
     = .error .indexError ∧
     SeqWrap.specRun dnaComp true "ACGGTAAC".toList [.slice (some 1) none (some 2), .rc, .index 4] = none := by decide
 
+/-! ## Added by the audit: the `[i]!` reads are never out of range, and string-level parent coordinates -/
+
+/-- every displayed position is a valid index into the parent, so the totalised reads `parent[i]!`
+in `value_eq_elems` / `PySlice.slice` never fall back to the default character on a reachable view -/
+theorem elems_in_range (v : View) (h : Inv v) : ∀ i ∈ elems v, 0 ≤ i ∧ i < v.seqLen := by
+  have hs : v.step ≠ 0 := by rcases h with ⟨_, h | h⟩ <;> omega
+  rw [← realise_eq' v h]
+  exact sliceIdx_mem_range v.seqLen h.1 _ _ _ hs
+
+example : elems { start := -3, stop := -10, step := -2, offset := 0, seqLen := 10 } = [7, 5, 3, 1] ∧
+    Inv { start := -3, stop := -10, step := -2, offset := 0, seqLen := 10 } := by decide
+
+/-- **string level parent coordinates**: the raw string of the view is `parent[ps:pe][::step]` where
+`offset + ps`, `offset + pe` are the reported `parent_start`, `parent_stop` (the strand reported by
+`parent_coordinates()` is the sign of `step`; `str(seq)` complements this when the step is negative on a
+nucleic acid, see `SeqWrap.str`) -/
+theorem value_parent_coords (s : SeqWrap.Seq) (h : SeqWrap.WF s) :
+    ∃ ps pe : Int, parentStart s.v = .ok (s.v.offset + ps) ∧ parentStop s.v = .ok (s.v.offset + pe) ∧
+      0 ≤ ps ∧ ps ≤ pe ∧ pe ≤ (s.parent.length : Int) ∧
+      SeqWrap.value s =
+        PySlice.slice ((s.parent.take pe.toNat).drop ps.toNat) none none s.v.step := by
+  obtain ⟨ps, pe, h1, h2, h3, h4, h5, h6⟩ := parent_coords_exact' s.v h.1
+  have hs : s.v.step ≠ 0 := by rcases h.1 with ⟨_, h | h⟩ <;> omega
+  refine ⟨ps, pe, h1, h2, h3, h4, by rw [← h.2]; exact h5, ?_⟩
+  rw [SeqWrap.value_eq_elems' s h, h6, List.map_map]
+  unfold PySlice.slice
+  have hl : ((s.parent.take pe.toNat).drop ps.toNat).length = (pe - ps).toNat := by
+    rw [List.length_drop, List.length_take]
+    have := h.2
+    omega
+  rw [hl]
+  apply List.map_congr_left
+  intro j hj
+  obtain ⟨j0, j1⟩ := sliceIdx_mem_range (pe - ps) (by omega) none none s.v.step hs j hj
+  simp only [Function.comp]
+  have hlen := h.2
+  have a1 : (j + ps).toNat < s.parent.length := by omega
+  have a2 : j.toNat < ((s.parent.take pe.toNat).drop ps.toNat).length := by rw [hl]; omega
+  rw [getElem!_def, getElem!_def, List.getElem?_eq_getElem a1, List.getElem?_eq_getElem a2,
+    List.getElem_drop, List.getElem_take]
+  have e : (j + ps).toNat = ps.toNat + j.toNat := by omega
+  simp only [e]
+
+-- "ACGGTAAC"[6:1:-2] on a parent with annotation offset 5: reported segment [5+2, 5+7), read backwards with stride 2
+example : SeqWrap.value { parent := "ACGGTAAC".toList, v := { start := -2, stop := -7, step := -2, offset := 5, seqLen := 8 }, nucleic := true }
+    = "ATG".toList ∧
+    parentStart { start := -2, stop := -7, step := -2, offset := 5, seqLen := 8 } = .ok (5 + 2) ∧
+    parentStop { start := -2, stop := -7, step := -2, offset := 5, seqLen := 8 } = .ok (5 + 7) ∧
+    PySlice.slice (("ACGGTAAC".toList.take 7).drop 2) none none (-2) = "ATG".toList := by decide
+
 end CogentModel.C01
